@@ -39,7 +39,10 @@ def gen_program(rng, gl):
                 acts.append(al)
             if all(('D',) in al for al in acts):
                 acts[0] = [('G', rng.choice(alpha))]
-            rules.append(dict(pre=pre, pat=pat, acts=acts))
+            con = None
+            if rng.random() < 0.35:
+                con = (rng.randrange(0, ln), rng.choice('lge'), rng.choice((0, 100, 462, 520, 751, 777, 1000, 1500)))
+            rules.append(dict(pre=pre, pat=pat, acts=acts, con=con))
         prog.append(dict(maxloop=rng.choice((1, 3, 5)), rules=rules, alpha=alpha))
     return prog
 
@@ -47,7 +50,7 @@ def gen_program(rng, gl):
 def run(chk):
     chk.trusted += ['hand model Model/RuleModel.v (reference semantics of the GDL-lite subset)', 'tools/props/fontkit.py: the GDL-lite compiler (FSM by subset construction, action bytecode, Silf v2 layout) — a wrong '
                     'compilation shows as a disagreement, it cannot hide one', 'shaping harness harness/impl_shape.cpp']
-    chk.assumptions += ['GDL-lite v1: no rule constraints, cursor left after the window (ret = 0), no attachment, substitution passes only; constraints / cursor adjustment / positioning passes are outside this check',
+    chk.assumptions += ['GDL-lite: rule constraints limited to one advance comparison on one item (cntxt_item + push_slot_attr), cursor left after the window (ret = 0), no attachment, substitution passes only; pass constraints, feature / glyph-attribute tests, cursor adjustment and positioning passes are outside this check',
                         'reads inside an action refer to the window as it was when the rule fired (the engine keeps a temp copy of a slot that is both changed and referenced)']
     chk.partial = True
     chk.check_proofs()
@@ -125,7 +128,7 @@ def run(chk):
     chk.notes.append('programs x strings: %s' % sorted(stats.items()))
     chk.cov.update(evaluations=len(cases), distinct_nontrivial=len(classes), disagreements_checked=ndis, distribution={BASE: len(cases)},
                    rule='random GDL-lite programs: 1-3 passes, uniform pre-context 0..2, 1-6 rules of length <= 5 over a 3-8 glyph alphabet (overlapping sets, so several rules match at a position and sort keys / rule order '
-                        'decide), actions put_glyph / put_subs (with references to earlier, later and own items) / delete / insert / advance / shift; each compiled to a font and run on 6-8 glyph strings of 1-12 glyphs; '
+                        'decide), optional constraint on the advance of one item (also of pre-context items, also on values set by an earlier pass), actions put_glyph / put_subs (with references to earlier, later and own items) / delete / insert / advance / shift; each compiled to a font and run on 6-8 glyph strings of 1-12 glyphs; '
                         'glyph ids, advances and design-unit origins compared with the extracted reference; non-trivial = distinct (#passes, many rules, output length, uses delete / insert / subs, verdict)',
                    samples=[mcases[0][:300], mcases[len(mcases) // 2][:300]], exhaustive=False)
 
